@@ -226,6 +226,9 @@ func registerTimeIntrinsics(reg func(string, intrinsicFn)) {
 	})
 	stop := func(w *World, th *Thread, fn *ssa.Function, args []Value) Value {
 		p := args[0].(Ptr)
+		if p == nil {
+			panic(goPanic{"runtime error: invalid memory address or nil pointer dereference (Stop on a nil *time.Timer)"})
+		}
 		t, _ := w.userData[fmt.Sprintf("timer:%p", p)].(*timerObj)
 		if t == nil {
 			return false
@@ -241,6 +244,9 @@ func registerTimeIntrinsics(reg func(string, intrinsicFn)) {
 	})
 	reg("(*time.Timer).Reset", func(w *World, th *Thread, fn *ssa.Function, args []Value) Value {
 		p := args[0].(Ptr)
+		if p == nil {
+			panic(goPanic{"runtime error: invalid memory address or nil pointer dereference (Reset on a nil *time.Timer)"})
+		}
 		t, _ := w.userData[fmt.Sprintf("timer:%p", p)].(*timerObj)
 		if t == nil {
 			return false
